@@ -146,11 +146,16 @@ func (r *Run) addPC(c *Term) {
 		return
 	}
 	r.ts.noteDomain(c)
+	r.ts.noteConstEq(c)
 	if c.op == OpEq && c.args[0].w > 0 {
-		if ok, contra := r.ts.noteEquality(c.args[0], c.args[1]); ok {
-			if contra {
-				panic(&pathEnd{kind: "infeasible", msg: "GF(2) system inconsistent"})
-			}
+		ok, contra := r.ts.noteEquality(c.args[0], c.args[1])
+		if contra {
+			panic(&pathEnd{kind: "infeasible", msg: "GF(2) system inconsistent"})
+		}
+		if !ok && r.linFacts > 0 {
+			r.linRows = r.ts.rowTerms()
+		}
+		if ok {
 			// kept out of the solver session: see query()
 			r.linFacts++
 			r.linRows = r.ts.rowTerms()
@@ -262,54 +267,68 @@ func (r *Run) query(c *Term, wantModel bool, extra []*Term) (string, map[string]
 		atomTerms = append(atomTerms, t)
 		refsA = append(refsA, t.ref())
 	}
-	tA := time.Now()
-	resA, mA := check(nil, nil, refsA)
-	if os.Getenv("GOSYM_SLOWQ") != "" {
-		fmt.Fprintf(os.Stderr, "[phaseA] %.2fs %s free=%d pivots=%d at %s\n", time.Since(tA).Seconds(), resA, len(free), len(pivots), r.curPos())
-	}
-	if resA != "sat" {
-		return resA, nil
-	}
-	// phase B
-	val := map[int32]bool{}
-	for i, a := range free {
-		val[a] = mA[refsA[i]] != 0
-	}
 	lc := r.ts.lin()
-	var raw []string
 	lit := func(t *Term, v bool) string {
 		b := "#b0"
 		if v {
 			b = "#b1"
 		}
-		return "(assert (= " + t.ref() + " " + b + "))"
+		return "(= " + t.ref() + " " + b + ")"
 	}
-	for i, a := range free {
-		raw = append(raw, lit(atomTerms[i], val[a]))
-	}
+	var pivTerms []*Term
 	for _, p := range pivots {
-		row := lc.rows[p]
-		v := row.c
-		for _, a := range row.atoms {
-			if val[a] {
-				v = !v
-			}
-		}
 		t := r.ts.atomBitTerm(p)
 		r.emit(t)
-		raw = append(raw, lit(t, v))
+		pivTerms = append(pivTerms, t)
 	}
 	var refs []string
 	if wantModel {
 		refs = modelRefs()
 	}
-	tB := time.Now()
-	resB, mB := check(r.linRows, raw, refs)
-	if os.Getenv("GOSYM_SLOWQ") != "" {
-		fmt.Fprintf(os.Stderr, "[phaseB] %.2fs %s\n", time.Since(tB).Seconds(), resB)
-	}
-	if resB == "sat" {
-		return "sat", mB
+	var blocks []string
+	for attempt := 0; attempt < 6; attempt++ {
+		tA := time.Now()
+		resA, mA := check(nil, blocks, refsA)
+		if os.Getenv("GOSYM_SLOWQ") != "" {
+			fmt.Fprintf(os.Stderr, "[phaseA] %.2fs %s free=%d pivots=%d at %s\n", time.Since(tA).Seconds(), resA, len(free), len(pivots), r.curPos())
+		}
+		if resA != "sat" {
+			if attempt == 0 {
+				return resA, nil
+			}
+			break // every remaining free assignment is excluded or unknown: fall back to the full query
+		}
+		// phase B
+		val := map[int32]bool{}
+		var raw []string
+		var blk []string
+		for i, a := range free {
+			val[a] = mA[refsA[i]] != 0
+			raw = append(raw, "(assert "+lit(atomTerms[i], val[a])+")")
+			blk = append(blk, lit(atomTerms[i], val[a]))
+		}
+		for i, p := range pivots {
+			row := lc.rows[p]
+			v := row.c
+			for _, a := range row.atoms {
+				if val[a] {
+					v = !v
+				}
+			}
+			raw = append(raw, "(assert "+lit(pivTerms[i], v)+")")
+		}
+		tB := time.Now()
+		resB, mB := check(r.linRows, raw, refs)
+		if os.Getenv("GOSYM_SLOWQ") != "" {
+			fmt.Fprintf(os.Stderr, "[phaseB] %.2fs %s\n", time.Since(tB).Seconds(), resB)
+		}
+		if resB == "sat" {
+			return "sat", mB
+		}
+		if len(blk) == 0 {
+			break
+		}
+		blocks = append(blocks, "(assert (not (and "+strings.Join(blk, " ")+")))")
 	}
 	// phase C
 	resC, mC := check(r.linRows, nil, refs)
@@ -436,6 +455,10 @@ func (r *Run) branch(c *Term) bool {
 	if c.IsConst() {
 		return c.k != 0
 	}
+	c = r.ts.norm(c)
+	if c.IsConst() {
+		return c.k != 0
+	}
 	ts := r.ts
 	if r.pos < len(r.prefix) {
 		d := r.prefix[r.pos]
@@ -485,12 +508,67 @@ func (r *Run) branch(c *Term) bool {
 	return take
 }
 
+// assertBranch decides whether ¬cond (a violation) is feasible, keeping the witness model.
+func (r *Run) assertBranch(notc *Term) (bool, map[string]uint64) {
+	if notc.IsConst() {
+		return notc.k != 0, nil
+	}
+	notc = r.ts.norm(notc)
+	if notc.IsConst() {
+		return notc.k != 0, nil
+	}
+	if r.pos < len(r.prefix) {
+		return r.branch(notc), nil
+	}
+	res, m := r.query(notc, true, nil)
+	if res == "unknown" {
+		r.h.noteOutcomeMsg("solver-unknown", r.curPos())
+	}
+	viol := res != "unsat"
+	if viol {
+		// the non-violating side continues on another path when feasible
+		if r.feasible(r.ts.BNot(notc)) {
+			alt := make([]Decision, len(r.log)+1)
+			copy(alt, r.log)
+			alt[len(r.log)] = Decision{'b', 0}
+			r.h.push(alt)
+			r.queued++
+		}
+		r.pos++
+		r.log = append(r.log, Decision{'b', 1})
+		r.addPC(notc)
+		return true, m
+	}
+	r.pos++
+	r.log = append(r.log, Decision{'b', 0})
+	r.addPC(r.ts.BNot(notc))
+	return false, nil
+}
+
+// recordViolation stores a violation with an already known model.
+func (r *Run) recordViolation(label, msg string, m map[string]uint64) {
+	key := label
+	if r.knownCtx != "" {
+		key = "known:" + r.knownCtx + ":" + label
+	}
+	v := &Violation{Harness: r.h.name, Label: label, Msg: msg, Known: r.knownCtx, Inputs: r.modelInputs(m), Choices: copyChoices(r.choices), Pos: r.curPos(), Path: r.pathString()}
+	r.h.mu.Lock()
+	if _, have := r.h.violations[key]; !have {
+		r.h.violations[key] = v
+	}
+	r.h.mu.Unlock()
+}
+
 // branchMonitor is like branch but the "true" side is only explored by the caller for reporting.
 func (r *Run) branchMonitor(c *Term, what string) bool { return r.branch(c) }
 
 const concretizeCap = 300
 
 func (r *Run) concretize(t *Term, what string) uint64 {
+	if t.IsConst() {
+		return t.k
+	}
+	t = r.ts.norm(t)
 	if t.IsConst() {
 		return t.k
 	}
@@ -525,6 +603,15 @@ func (r *Run) concretize(t *Term, what string) uint64 {
 	r.solver.Send("(push 1)")
 	var vals []uint64
 	capHit := false
+	// model values are read for the input variables only and the term is evaluated by the engine
+	// (get-value of a defined term is pathologically slow in z3 when thousands of definitions exist)
+	var sv []*Term
+	supportVars(t, map[int]bool{}, &sv)
+	evaluable := true
+	var svRefs []string
+	for _, v := range sv {
+		svRefs = append(svRefs, v.ref())
+	}
 	for {
 		res := r.solver.CheckSat()
 		if res == "dead" {
@@ -537,11 +624,25 @@ func (r *Run) concretize(t *Term, what string) uint64 {
 			}
 			break
 		}
-		m, ok := r.solver.GetValues([]string{t.ref()})
-		if !ok {
-			break
+		var v uint64
+		got := false
+		if evaluable && len(svRefs) > 0 {
+			m, ok := r.solver.GetValues(svRefs)
+			if ok {
+				if ev, ok2 := evalTerm(t, m, map[int]uint64{}); ok2 {
+					v, got = ev, true
+				} else {
+					evaluable = false
+				}
+			}
 		}
-		v := m[t.ref()]
+		if !got {
+			m, ok := r.solver.GetValues([]string{t.ref()})
+			if !ok {
+				break
+			}
+			v = m[t.ref()]
+		}
 		vals = append(vals, v)
 		if len(vals) >= concretizeCap {
 			capHit = true
